@@ -793,8 +793,16 @@ fn decode(c: &Case) -> bool {
         _ => {
             let v = RpIdVerifier::new(DEFAULT_PROVIDER);
             let a = v.is_valid_rp_id(&text);
-            let b2 = match url::Url::parse(&format!("https://{}", text.chars().take(300).collect::<String>())) {
-                Ok(u) => v.assert_domain(&passkey_client::Origin::from(&u), Some(&text)).is_ok(),
+            // hosts of any length (the URL parser sets no limit of its own)
+            let b2 = match url::Url::parse(&format!("https://{}", text.chars().take(400_000).collect::<String>())) {
+                Ok(u) => {
+                    let o = passkey_client::Origin::from(&u);
+                    // the text as RP ID, a fixed unrelated RP ID, and none
+                    let a1 = v.assert_domain(&o, Some(&text)).is_ok();
+                    let a2 = v.assert_domain(&o, Some("example.com")).is_ok();
+                    let a3 = v.assert_domain(&o, None).is_ok();
+                    a1 || a2 || a3
+                }
                 Err(_) => false,
             };
             a || b2
